@@ -783,7 +783,8 @@ impl Paragraph {
                     entries.push((current, Entry::cast(c.as_node().unwrap().clone()).unwrap()));
                     current = vec![];
                 }
-                ERROR | COMMENT => {
+                ERROR | COMMENT | NEWLINE => {
+                    // comment lines (with the newline that ends them)
                     current.push(c);
                 }
                 _ => {}
